@@ -504,28 +504,16 @@ class SymInt:
 
 
 def concretize(x, limit=512):
-    """Force a symbolic int to a concrete value by forking on every feasible value (small
-    domains only).  Used when the interpreter insists on a machine int (indexing, range)."""
+    """Force a symbolic int to a concrete value by forking (used when the interpreter insists on a
+    machine int: indexing, range, hashing).  Every branch expression is a deterministic function of
+    the path (binary search on fixed pivots), which re-execution needs; infeasible halves are pruned
+    by the solver, so the number of paths is the number of feasible values."""
     if isinstance(x, int):
         return x
     if isinstance(x, SymInt):
-        if x.lo == x.hi:
-            return x.lo
-        if x.hi - x.lo >= limit:
-            # wide interval, possibly few feasible values: model-guided enumeration
-            for _ in range(limit):
-                m = CTX.get_model()
-                if m is None:
-                    unsupported("__index__ on symbolic int: no model")
-                w = x.w
-                v = m.eval(x.trunc(w), model_completion=True).as_long()
-                if v >= (1 << (w - 1)):
-                    v -= 1 << w
-                if x == v:
-                    return v
-            unsupported(f"__index__ on symbolic int with more than {limit} feasible values in [{x.lo},{x.hi}]")
-        # binary search by forking keeps the number of decisions logarithmic
         lo, hi = x.lo, x.hi
+        if hi - lo > (1 << 48):
+            unsupported(f"__index__ on symbolic int with domain [{lo},{hi}]")
         while lo < hi:
             mid = (lo + hi) // 2
             if x <= mid:
@@ -534,16 +522,21 @@ def concretize(x, limit=512):
                 lo = mid + 1
         return lo
     if isinstance(x, ZInt):
-        # model-guided enumeration: fork on (x == value in the current model); the DFS visits the
-        # other feasible values through the alternative side
-        for _ in range(limit):
-            m = CTX.get_model()
-            if m is None:
-                unsupported("__index__ on symbolic int: no model")
-            v = m.eval(x.e, model_completion=True).as_long()
-            if x == v:
-                return v
-        unsupported("__index__ on symbolic int (LIA) with more than %d feasible values" % limit)
+        neg = bool(x < 0)
+        y = -x if neg else x
+        k = 0
+        while not (y < (1 << k)):
+            k += 1
+            if k > 48:
+                unsupported("__index__ on unbounded symbolic int (LIA) beyond 2^48")
+        lo, hi = ((1 << (k - 1)) if k else 0), (1 << k) - 1
+        while lo < hi:
+            mid = (lo + hi) // 2
+            if y <= mid:
+                hi = mid
+            else:
+                lo = mid + 1
+        return -lo if neg else lo
     unsupported(f"concretize {type(x).__name__}")
 
 
